@@ -236,11 +236,18 @@ func c12recvqOnce(rng *Rng, pool, senders, nmsg int) rqOutcome {
 	wants := []string{"ok"}
 	pushes := 0
 	steps := 0
+	lastProgress := time.Now()
 	for steps < 40*nmsg+40 {
 		parked := s.settle(1500*time.Microsecond, 300*time.Millisecond)
 		if len(parked) == 0 {
-			break
+			// nobody is at a queue operation: either everything has been routed, or the readers / workers have not got
+			// there yet (a loaded machine), or — only after a long silence — something is stranded for good
+			if p.b.count() >= nmsg || time.Since(lastProgress) > 4*time.Second {
+				break
+			}
+			continue
 		}
+		lastProgress = time.Now()
 		pk := parked[rng.Intn(len(parked))]
 		ev := s.release(pk)
 		steps++
